@@ -220,15 +220,15 @@ def check_plot_diagrams(ax, new_colls, new_lines, dgms, opts, site, opi):
                             % (n, len(exp), len(off)), opi)
         for (ox, oy), (ex, ey) in zip(off, exp):
             tolx = 1e-6 * max(abs(ex), 1e-30) + 1e-30
-            if abs(ox - ex) > tolx:
+            if not abs(ox - ex) <= tolx:            # NaN-safe
                 raise Violation("scatter-offsets==points", site, "birth", "diagram #%d: drawn x %r, birth %r" % (n, ox, ex), opi)
             if math.isinf(ey):
-                if abs(oy - y_inf) > 1e-6 * max(abs(y_inf), 1e-30):      # offsets are single precision
+                if not abs(oy - y_inf) <= 1e-6 * max(abs(y_inf), 1e-30):      # offsets are single precision; NaN-safe
                     raise Violation("infinite-deaths-on-infinity-line", site, "off-line",
                                     "diagram #%d: infinite death drawn at y=%r, infinity line at %r" % (n, oy, y_inf), opi)
             else:
                 scale = max(abs(ey), abs(ex) if lifetime else 0.0, 1e-30)
-                if abs(oy - ey) > 2e-6 * scale + 1e-30:
+                if not abs(oy - ey) <= 2e-6 * scale + 1e-30:
                     raise Violation("scatter-offsets==points", site, "lifetime" if lifetime else "death",
                                     "diagram #%d: drawn y %r, expected %r" % (n, oy, ey), opi)
                 finite_y.append(oy)
